@@ -123,9 +123,15 @@ type Contract struct {
 	SiteAssumes map[string][]*Clause // site NAME: assume ... (about the result of the call; part of a declared assumption)
 }
 
+// HasProp: the contract is listed for property p, or one of its clauses is labelled with p ([p:label]).
 func (c *Contract) HasProp(p string) bool {
 	for _, q := range c.Props {
 		if q == p {
+			return true
+		}
+	}
+	for _, cl := range c.allCl {
+		if cl.Prop == p {
 			return true
 		}
 	}
